@@ -34,6 +34,16 @@ type TransSpec struct {
 	WrapSigned bool     // int8/16/32/64 wrap around (swrap N) instead of being unbounded; `int` stays unbounded
 	Frags      []FragSpec
 	T15        T15Spec // [ext:T15] (gen/trans_ext15.go) byte-sequence type parameters, real imports, error kinds, out-parameters
+	// [ext:T08] (gen/trans_ext08.go) -------------------------------------------------------------------------------
+	Stubs         map[string]string // import path -> declarations (Go source) of a foreign package, as far as the code uses it
+	ModuleImports bool              // packages of the translated module are type-checked from their source in the tree
+	Foreign       []ForeignSpec     // functions / methods of other packages: fields of the generated `Record Foreign`
+	OutParams     map[string][]int  // function -> slice parameters that are output buffers (returned in front of the results)
+	ErrCodes      []ErrCode         // errors.New / fmt.Errorf texts -> error codes
+	// [func] (gen/trans_func.go) InOut (opt-in, see "In-out slice parameters" in TRANSLATOR.md): a slice parameter that a
+	// function only indexes, measures, ranges over or passes on in the same way, and whose elements it writes, is returned
+	// to the caller (after the receiver, before the results) and the caller rebinds the variable / field it passed.
+	InOut bool
 }
 
 type unsupported struct{ msg string }
@@ -49,6 +59,8 @@ const (
 	kStruct             // a translated struct (or a pointer to it) -> its Record
 	kPlace              // [seq] h := &s[i], s a slice of translated structs -> the index (trans_seq.go)
 	kErr                // [ext:T20] error -> Z: nil = 0, a sentinel `var ErrX = errors.New(..)` = a positive code
+	kOpaque             // [ext:T08] a value of a foreign type: `<type> ext'`, a field of the Record Foreign
+	kFunc               // [func] a function-typed parameter / field (trans_func.go) -> a Gallina function
 )
 
 type gtype struct {
@@ -60,6 +72,9 @@ type gtype struct {
 	str   bool        // [ext:T20] kSlice that is a Go string (immutable bytes)
 	arr   int64       // [ext:T20] kSlice that is a Go array [arr]T (isArr)
 	isArr bool
+	nest  bool     // [ext:T08] kSlice whose elements are slices of integers: list (list Z)
+	opq   string   // [ext:T08] kOpaque: the Record field that is its type
+	fn    *funcSig // [func] kFunc
 }
 
 func (g gtype) coq() string {
@@ -70,9 +85,16 @@ func (g gtype) coq() string {
 		if g.elem != nil { // [seq]
 			return "list " + g.elem.name
 		}
+		if g.nest { // [ext:T08]
+			return "list (list Z)"
+		}
 		return "list Z"
 	case kStruct:
 		return g.st.name
+	case kOpaque: // [ext:T08]
+		return "(" + g.opq + " ext')"
+	case kFunc:
+		return g.fn.coq()
 	}
 	return "Z"
 }
@@ -81,12 +103,17 @@ func (g gtype) zero() string {
 	case kBool:
 		return "false"
 	case kSlice:
+		if g.isArr && g.nest { // [ext:T08]
+			return fmt.Sprintf("(repeat [] %d)", g.arr)
+		}
 		if g.isArr { // [ext:T20]
 			return fmt.Sprintf("(repeat 0 %d)", g.arr)
 		}
 		return "[]"
 	case kStruct:
 		return "zero_" + g.st.name
+	case kFunc:
+		return "nil_func_is_not_modelled" // never emitted: declarations needing it are refused (trans_func.go)
 	}
 	return "0"
 }
@@ -115,7 +142,13 @@ type funcInfo struct {
 	greads, gwrites map[*globalInfo]bool // package-level state read / written (directly or through calls)
 	ignoredRecv     bool                 // a receiver of an untranslatable type that the body never mentions
 	frag            *fragInfo            // a loop fragment of a function instead of a whole function
-	outs            []int                // [ext:T15] indices of the slice parameters written in place (returned before the results)
+	// [ext:T08]
+	foreign bool  // calls a foreign function (directly or through calls): takes `ext' : Foreign`
+	outs    []int // slice parameters that are output buffers
+	// [func] (trans_func.go)
+	noesc  []bool // per parameter: a slice the function neither keeps, reslices, returns nor reassigns
+	inout  []bool // per parameter: noesc and written in place (directly or through calls): returned to the caller
+	outs15 []int  // [ext:T15] indices of the slice parameters written in place (returned before the results)
 }
 
 type Translator struct {
@@ -129,6 +162,8 @@ type Translator struct {
 	global  map[string]bool // Coq names that locals must not shadow
 	seq     *seqState       // [seq] sequential reading of atomics, places, timed tails (trans_seq.go)
 	ext20                   // [ext:T20] state of gen/trans_ext20.go
+	ext08                   // [ext:T08] state of gen/trans_ext08.go
+	inOut   bool            // [func] TransSpec.InOut
 	ext15                   // [ext:T15] state of gen/trans_ext15.go
 }
 
@@ -136,6 +171,9 @@ type stubImporter struct{}
 
 func (stubImporter) Import(path string) (*types.Package, error) {
 	if p := seqStubPackage(path); p != nil { // [seq] sync/atomic, runtime, time: typed stubs
+		return p, nil
+	}
+	if p := import08(path); p != nil { // [ext:T08] TransSpec.Stubs, packages of the translated module
 		return p, nil
 	}
 	p := types.NewPackage(path, filepath.Base(path))
@@ -171,6 +209,9 @@ func nodeDesc(n ast.Node) string { return strings.TrimPrefix(fmt.Sprintf("%T", n
 func (t *Translator) typeOf(ty types.Type, n ast.Node) gtype {
 	if ty == nil {
 		t.fail(n, "expression without a type")
+	}
+	if g, ok := t.type08(ty, n); ok { // [ext:T08] opaque foreign types, [][]byte, byte-like type parameters
+		return g
 	}
 	switch x := ty.(type) {
 	case *types.Basic:
@@ -216,6 +257,10 @@ func (t *Translator) typeOf(ty types.Type, n ast.Node) gtype {
 			if si := t.structs[nm.Origin().Obj()]; si != nil {
 				return gtype{k: kStruct, st: si, ptr: true}
 			}
+		}
+	case *types.Signature:
+		if fs := t.funcSigOf(x, n); fs != nil {
+			return gtype{k: kFunc, fn: fs}
 		}
 	case *types.Named:
 		if si := t.structs[x.Origin().Obj()]; si != nil {
@@ -275,7 +320,7 @@ func Translate(repo string, spec TransSpec) (out string, err error) {
 		return "", e
 	}
 	t := &Translator{fset: p.Fset, repo: repo, structs: map[*types.TypeName]*structInfo{}, funcs: map[*types.Func]*funcInfo{},
-		byName: map[string]*ast.FuncDecl{}, global: map[string]bool{}}
+		byName: map[string]*ast.FuncDecl{}, global: map[string]bool{}, inOut: spec.InOut}
 	defer func() {
 		if r := recover(); r != nil {
 			if u, ok := r.(unsupported); ok {
@@ -287,6 +332,7 @@ func Translate(repo string, spec TransSpec) (out string, err error) {
 	}()
 	t.info = &types.Info{Types: map[ast.Expr]types.TypeAndValue{}, Defs: map[*ast.Ident]types.Object{},
 		Uses: map[*ast.Ident]types.Object{}, Selections: map[*ast.SelectorExpr]*types.Selection{}}
+	defer begin08(repo, spec)() // [ext:T08] import context (stubs of foreign packages)
 	conf := types.Config{Importer: stubImporter{}, Error: func(error) {}}
 	conf.Importer = t.importer15(spec, conf.Importer) // [ext:T15] real packages of the module, typed fmt.Errorf / encoding/hex stubs
 	tpkg, _ := conf.Check(spec.Dir, p.Fset, p.Files, t.info)
@@ -298,6 +344,7 @@ func Translate(repo string, spec TransSpec) (out string, err error) {
 	}
 	t.seqInit(spec, tpkg, p.Files) // [seq]
 	t.setup20(p, tpkg, spec)       // [ext:T20]
+	t.setup08(spec)                // [ext:T08]
 	t.setup15(spec)                // [ext:T15]
 	for _, f := range p.Files {
 		for _, d := range f.Decls {
@@ -382,6 +429,7 @@ func Translate(repo string, spec TransSpec) (out string, err error) {
 		fmt.Fprintf(&fb, "#[export] Hint Unfold %s : go2v.\n", fi.name)
 	}
 	sb.WriteString(t.consts20())
+	sb.WriteString(t.record08()) // [ext:T08] Record Foreign
 	sb.WriteString(t.consts15()) // [ext:T15] error kinds
 	t.shape15()                  // [ext:T15] the shape the area's proof scripts cover (else: degrade)
 	sb.WriteString(fb.String())
@@ -409,12 +457,16 @@ func (si *structInfo) emit() string {
 		}
 		b.WriteString(".\n")
 	}
-	fmt.Fprintf(&b, "Definition zero_%s : %s := mk%s", si.name, si.name, si.name)
-	for _, ft := range si.ftypes {
-		b.WriteString(" " + ft.zero())
+	if si.hasFunc() { // a nil function value is not modelled: no zero value (declarations needing one are refused)
+		fmt.Fprintf(&b, "#[export] Hint Unfold")
+	} else {
+		fmt.Fprintf(&b, "Definition zero_%s : %s := mk%s", si.name, si.name, si.name)
+		for _, ft := range si.ftypes {
+			b.WriteString(" " + ft.zero())
+		}
+		b.WriteString(".\n")
+		fmt.Fprintf(&b, "#[export] Hint Unfold zero_%s", si.name)
 	}
-	b.WriteString(".\n")
-	fmt.Fprintf(&b, "#[export] Hint Unfold zero_%s", si.name)
 	for _, f := range si.fields {
 		fmt.Fprintf(&b, " set_%s_%s %s_%s", si.name, f, si.name, f)
 	}
@@ -464,8 +516,12 @@ func (t *Translator) addFunc(key string) *funcInfo {
 		if g.k == kStruct && g.ptr {
 			t.fail(fd, "pointer result of %s", key)
 		}
+		if g.k == kFunc {
+			t.fail(fd, "function-typed result of %s", key)
+		}
 		fi.results = append(fi.results, g)
 	}
+	t.outs08(fi, key, sig) // [ext:T08] output parameters
 	return fi
 }
 
@@ -540,6 +596,7 @@ func (t *Translator) assigned(n ast.Node, set map[types.Object]bool) {
 	}
 	ast.Inspect(n, func(m ast.Node) bool {
 		t.seqAssigned(m, set) // [seq] writes through h := &s[i] and atomic stores
+		t.assigned08(m, set)  // [ext:T08] slice arguments a foreign function writes
 		switch x := m.(type) {
 		case *ast.AssignStmt:
 			for _, l := range x.Lhs {
@@ -572,6 +629,11 @@ func (t *Translator) assigned(n ast.Node, set map[types.Object]bool) {
 					if o, _ := t.rootObj(recv); o != nil {
 						set[o] = true
 					}
+				}
+			}
+			for _, a := range t.writtenArgs(x) { // [func] in-out slice arguments (trans_func.go)
+				if o, _ := t.rootObj(a); o != nil {
+					set[o] = true
 				}
 			}
 			if fn, _ := t.calleeOf(x); fn != nil { // [ext:T20] package-level state written by the callee
@@ -620,11 +682,17 @@ func (t *Translator) analyse() {
 						fi.callees[t.funcFor(fn, c)] = true
 					}
 				}
+				if id, ok := m.(*ast.Ident); ok { // a package function used as a value (trans_func.go)
+					if fn := t.funcValueRef(id); fn != nil {
+						fi.callees[t.funcFor(fn, id)] = true
+					}
+				}
 				return true
 			})
 			fi.loops = hasLoop(t.body(fi))
 		}
 	}
+	t.analyseInOut()
 	for changed := true; changed; {
 		changed = false
 		for _, fi := range t.funcs {
@@ -644,6 +712,9 @@ func (t *Translator) analyse() {
 				changed = true
 			}
 			if t.outs15(fi) { // [ext:T15] slice parameters written in place
+				changed = true
+			}
+			if t.foreign08(fi) { // [ext:T08]
 				changed = true
 			}
 		}
